@@ -5,8 +5,10 @@ WT="$1"; S="$2"
 cd "$WT" || exit 3
 git checkout -q -- . 2>/dev/null
 git apply "$S/patch.diff" || { echo "apply failed"; exit 3; }
+make all > /dev/null 2>&1
 sh "$S/run.sh" > "/tmp/confirm_with.log" 2>&1; A=$?
 git checkout -q -- .
+make all > /dev/null 2>&1
 sh "$S/run.sh" > "/tmp/confirm_without.log" 2>&1; B=$?
 echo "$WT/$S: with change exit=$A ; without change exit=$B"
 [ "$A" -ne 0 ] && [ "$B" -eq 0 ] && echo CONFIRMED || { echo NOT-CONFIRMED; tail -3 /tmp/confirm_with.log; tail -3 /tmp/confirm_without.log; }
